@@ -50,14 +50,29 @@ impl Rec {
     pub fn flag(&self, k: &str) -> bool {
         self.get(k) == Some("T")
     }
+    /// values are written with ` ` as `%20` and `%` as `%25`
     pub fn some(&self, k: &str) -> Option<String> {
-        self.get(k).and_then(|v| v.strip_prefix("s:")).map(|s| s.to_string())
+        self.get(k).and_then(|v| v.strip_prefix("s:")).map(unesc)
+    }
+    pub fn set_some(&mut self, k: &str, v: &str) {
+        self.set(k, format!("s:{}", esc(v)));
     }
     pub fn list(&self, k: &str) -> Vec<String> {
         match self.get(k).and_then(|v| v.strip_prefix("l:")) {
             Some("") | None => vec![],
-            Some(r) => r.split(',').map(|s| s.to_string()).collect(),
+            Some(r) => r.split(',').map(unesc).collect(),
         }
+    }
+    /// the record of the i-th service of the add: `key#i` overrides `key`
+    pub fn for_service(&self, i: usize) -> Rec {
+        let suffix = format!("#{i}");
+        let mut out = Rec(self.0.iter().filter(|(k, _)| !k.contains('#')).cloned().collect());
+        for (k, v) in &self.0 {
+            if let Some(base) = k.strip_suffix(&suffix) {
+                out.set(base, v.clone());
+            }
+        }
+        out
     }
     pub fn line(&self, op: &str) -> String {
         let mut s = op.to_string();
@@ -71,19 +86,45 @@ impl Rec {
     }
 }
 
+pub fn esc(s: &str) -> String {
+    s.replace('%', "%25").replace(' ', "%20")
+}
+pub fn unesc(s: &str) -> String {
+    s.replace("%20", " ").replace("%25", "%")
+}
+
 // ---------- simulated service manager and node RPC ----------
 pub struct Ctl {
     pub installed: Mutex<Vec<(ServiceInstallCtx, bool)>>,
     pub free_port: u16,
+    /// hand out free_port, free_port + 1, … (used when the RPC ports are looked up per service)
+    pub free_port_counts_up: bool,
+    pub install_calls: Mutex<usize>,
+    pub port_calls: Mutex<usize>,
+    pub fail_install_at: Option<usize>,
+    pub fail_port_at: Option<usize>,
+}
+fn injected() -> SvcError {
+    SvcError::Io(std::io::Error::new(std::io::ErrorKind::Other, "injected fault"))
 }
 impl ServiceControl for Ctl {
     fn create_service_user(&self, _u: &str) -> Result<(), SvcError> {
         Ok(())
     }
     fn get_available_port(&self) -> Result<u16, SvcError> {
-        Ok(self.free_port)
+        let mut n = self.port_calls.lock().unwrap();
+        *n += 1;
+        if self.fail_port_at == Some(*n) {
+            return Err(injected());
+        }
+        Ok(if self.free_port_counts_up { self.free_port + (*n as u16 - 1) } else { self.free_port })
     }
     fn install(&self, ctx: ServiceInstallCtx, user_mode: bool) -> Result<(), SvcError> {
+        let mut n = self.install_calls.lock().unwrap();
+        *n += 1;
+        if self.fail_install_at == Some(*n) {
+            return Err(injected());
+        }
         self.installed.lock().unwrap().push((ctx, user_mode));
         Ok(())
     }
@@ -167,6 +208,8 @@ pub fn upgrade_autostart_rule() -> String {
 }
 
 pub struct Built {
+    /// position of the service in the add (1-based)
+    pub index: usize,
     pub install: ServiceInstallCtx,
     pub install_user_mode: bool,
     pub upgrade: ServiceInstallCtx,
@@ -207,9 +250,11 @@ fn dummy_node(n: u16, root: &Path) -> NodeServiceData {
     }
 }
 
-/// Run the real `add_node` against the simulated service manager, optionally the real `on_start`
-/// refresh, then the real `build_upgrade_install_context`.
-pub fn build_real(rec: &Rec, root: &Path, rt: &tokio::runtime::Runtime, autostart_rule: &str) -> Result<Built, String> {
+/// Run the real `add_node` (one add of `@count` services, with the fault `@fail` injected) against the
+/// simulated service manager; then continue as `antctl upgrade` does: from the registry file as the add
+/// left it (the caller saves once more only when `add_node` returned Ok), optionally the real `on_start`
+/// refresh, then the real `build_upgrade_install_context` — for every service that did get installed.
+pub fn build_real(rec: &Rec, root: &Path, rt: &tokio::runtime::Runtime, autostart_rule: &str) -> Result<Vec<Built>, String> {
     let _ = std::fs::remove_dir_all(root);
     std::fs::create_dir_all(root.join("src")).map_err(|e| e.to_string())?;
     let r = root.to_string_lossy().to_string();
@@ -217,18 +262,25 @@ pub fn build_real(rec: &Rec, root: &Path, rt: &tokio::runtime::Runtime, autostar
     let src_bin = root.join("src/antnode");
     std::fs::write(&src_bin, b"fake antnode binary").map_err(|e| e.to_string())?;
 
-    let number: u16 = rec.some("node_number").and_then(|s| s.parse().ok()).ok_or("node_number")?;
-    let name = rec.some("service_name").ok_or("service_name")?;
-    let data_dir = PathBuf::from(sub(rec.some("service_data_dir_path").ok_or("service_data_dir_path")?));
-    let log_dir = PathBuf::from(sub(rec.some("service_log_dir_path").ok_or("service_log_dir_path")?));
-    let rpc: SocketAddr = rec.some("rpc_socket_addr").ok_or("rpc_socket_addr")?.parse().map_err(|_| "rpc_socket_addr")?;
+    let count: u16 = rec.some("@count").and_then(|s| s.parse().ok()).unwrap_or(1);
+    let fail: Option<(String, usize)> = rec.some("@fail").and_then(|f| {
+        let (k, n) = f.split_once(':')?;
+        Some((k.to_string(), n.parse().ok()?))
+    });
+    let rec1 = rec.for_service(1);
+    let number: u16 = rec1.some("node_number").and_then(|s| s.parse().ok()).ok_or("node_number")?;
+    let data_dir = PathBuf::from(sub(rec1.some("service_data_dir_path").ok_or("service_data_dir_path")?));
+    let log_dir = PathBuf::from(sub(rec1.some("service_log_dir_path").ok_or("service_log_dir_path")?));
+    let rpc: SocketAddr = rec1.some("rpc_socket_addr").ok_or("rpc_socket_addr")?.parse().map_err(|_| "rpc_socket_addr")?;
     let rpc_ip = match rpc.ip() {
         IpAddr::V4(a) => a,
         _ => return Err("rpc ip".into()),
     };
-    let port = |k: &str| -> Option<u16> { rec.some(k).and_then(|s| s.parse().ok()) };
+    let port = |k: &str| -> Option<u16> { rec1.some(k).and_then(|s| s.parse().ok()) };
+    let range = |p: u16| if count > 1 { PortRange::Range(p, p + count - 1) } else { PortRange::Single(p) };
     let metrics = port("metrics_free_port");
     let via_server = rec.flag("@metrics_via_server");
+    let rpc_auto = matches!(&fail, Some((k, _)) if k == "port");
     let evm = match rec.get("options.evm_network") {
         Some("e:ArbitrumOne") => EvmNetwork::ArbitrumOne,
         Some("e:ArbitrumSepolia") => EvmNetwork::ArbitrumSepolia,
@@ -261,7 +313,7 @@ pub fn build_real(rec: &Rec, root: &Path, rt: &tokio::runtime::Runtime, autostar
         antnode_src_path: src_bin,
         auto_restart: rec.flag("options.auto_restart"),
         auto_set_nat_flags: nat.is_some(),
-        count: Some(1),
+        count: Some(count),
         delete_antnode_src: false,
         enable_metrics_server: via_server,
         env_variables: rec.some("options.env_variables").map(|s| env_pairs(&s)),
@@ -275,15 +327,15 @@ pub fn build_real(rec: &Rec, root: &Path, rt: &tokio::runtime::Runtime, autostar
         },
         max_archived_log_files: rec.some("options.max_archived_log_files").and_then(|s| s.parse().ok()),
         max_log_files: rec.some("options.max_log_files").and_then(|s| s.parse().ok()),
-        metrics_port: if via_server { None } else { metrics.map(PortRange::Single) },
+        metrics_port: if via_server { None } else { metrics.map(range) },
         network_id: rec.some("options.network_id").and_then(|s| s.parse().ok()),
         node_ip: rec.some("options.node_ip").and_then(|s| s.parse().ok()),
-        node_port: port("node_port").map(PortRange::Single),
-        owner: rec.some("@owner_raw").or_else(|| rec.some("owner")),
+        node_port: port("node_port").map(range),
+        owner: rec.some("options.owner"),
         peers_args,
         rewards_address: RewardsAddress::from_str(&rec.some("options.rewards_address").ok_or("rewards")?).map_err(|e| e.to_string())?,
         rpc_address: if rec.flag("@rpc_default_ip") { None } else { Some(rpc_ip) },
-        rpc_port: Some(PortRange::Single(rpc.port())),
+        rpc_port: if rpc_auto { None } else { Some(range(rpc.port())) },
         service_data_dir_path: data_dir.parent().ok_or("data dir parent")?.to_path_buf(),
         service_log_dir_path: log_dir.parent().ok_or("log dir parent")?.to_path_buf(),
         upnp: upnp_in,
@@ -291,6 +343,7 @@ pub fn build_real(rec: &Rec, root: &Path, rt: &tokio::runtime::Runtime, autostar
         user_mode: rec.flag("options.user_mode"),
         version: rec.some("options.version").unwrap_or_else(|| "0.1.0".into()),
     };
+    let reg_path = root.join("node_registry.json");
     let mut reg = NodeRegistry {
         auditor: None,
         daemon: None,
@@ -298,40 +351,73 @@ pub fn build_real(rec: &Rec, root: &Path, rt: &tokio::runtime::Runtime, autostar
         faucet: None,
         nat_status: nat,
         nodes: (1..number).map(|n| dummy_node(n, root)).collect(),
-        save_path: root.join("node_registry.json"),
+        save_path: reg_path.clone(),
     };
-    let ctl = Ctl { installed: Mutex::new(vec![]), free_port: metrics.unwrap_or(1) };
-    let names = rt.block_on(add_node(options, &mut reg, &ctl, VerbosityLevel::Minimal)).map_err(|e| format!("add_node: {e}"))?;
-    if names != vec![name.clone()] {
-        return Err(format!("add_node named the service {names:?}, the record says {name}"));
+    // the registry as it is on disk before this add (an earlier add saved it)
+    reg.save().map_err(|e| format!("registry save: {e}"))?;
+    let ctl = Ctl {
+        installed: Mutex::new(vec![]),
+        free_port: if rpc_auto { rpc.port() } else { metrics.unwrap_or(1) },
+        free_port_counts_up: rpc_auto,
+        install_calls: Mutex::new(0),
+        port_calls: Mutex::new(0),
+        fail_install_at: fail.as_ref().filter(|(k, _)| k == "install").map(|(_, n)| *n),
+        fail_port_at: fail.as_ref().filter(|(k, _)| k == "port").map(|(_, n)| *n),
+    };
+    let result = rt.block_on(add_node(options, &mut reg, &ctl, VerbosityLevel::Minimal));
+    match (&result, &fail) {
+        (Ok(_), Some(_)) => return Err("add_node succeeded although a fault was injected".into()),
+        (Err(e), None) => return Err(format!("add_node: {e}")),
+        _ => {}
     }
-    let (install, install_user_mode) = ctl.installed.lock().unwrap().pop().ok_or("nothing installed")?;
-    let mut data = reg.nodes.last().cloned().ok_or("no registry entry")?;
-
-    if let Some(p) = port("@listen") {
-        let mut svc = NodeService::new(&mut data, Box::new(Rpc { listen: Some(p) }));
-        rt.block_on(svc.on_start(Some(1000), true)).map_err(|e| format!("on_start: {e}"))?;
+    if result.is_ok() {
+        // `cmd::node::add` saves the registry once more after a successful add_node
+        reg.save().map_err(|e| format!("registry save: {e}"))?;
     }
-    let provided = rec.some("@provided").map(|s| env_pairs(&s));
-    let env_variables = if provided.is_some() { provided } else { reg.environment_variables.clone() };
-    let auto_restart = match autostart_rule {
-        "node.auto_restart" => data.auto_restart,
-        "false" => false,
-        "true" => true,
-        other => return Err(format!("unknown-upgrade-literal auto_restart: {other}")),
-    };
-    let options = UpgradeOptions {
-        auto_restart,
-        env_variables,
-        force: false,
-        start_service: true,
-        target_bin_path: root.join("src/antnode"),
-        target_version: semver::Version::parse("0.2.0").unwrap(),
-    };
-    let svc = NodeService::new(&mut data, Box::new(Rpc { listen: None }));
-    let upgrade = svc.build_upgrade_install_context(options).map_err(|e| format!("upgrade ctx: {e}"))?;
-    drop(svc);
-    Ok(Built { install, install_user_mode, upgrade, data })
+    drop(reg);
+    // `antctl upgrade` starts from the registry file
+    let mut reg = NodeRegistry::load(&reg_path).map_err(|e| format!("registry load: {e}"))?;
+    let installed: Vec<(ServiceInstallCtx, bool)> = ctl.installed.lock().unwrap().drain(..).collect();
+    let mut out = vec![];
+    for (install, install_user_mode) in installed {
+        let label = install.label.to_string();
+        let n: u16 = label.trim_start_matches("antnode").parse().map_err(|_| format!("service label {label}"))?;
+        let index = (n + 1 - number) as usize;
+        let reci = rec.for_service(index);
+        if reci.some("service_name").as_deref() != Some(label.as_str()) {
+            return Err(format!("add_node named service {index} {label}, the record says {:?}", reci.some("service_name")));
+        }
+        let Some(pos) = reg.nodes.iter().position(|d| d.service_name == label) else {
+            return Err(format!("service {label} was installed but is not in the saved registry"));
+        };
+        let mut data = reg.nodes[pos].clone();
+        if let Some(p) = port("@listen") {
+            let mut svc = NodeService::new(&mut data, Box::new(Rpc { listen: Some(p) }));
+            rt.block_on(svc.on_start(Some(1000), true)).map_err(|e| format!("on_start: {e}"))?;
+        }
+        let provided = rec.some("@provided").map(|s| env_pairs(&s));
+        let env_variables = if provided.is_some() { provided } else { reg.environment_variables.clone() };
+        let auto_restart = match autostart_rule {
+            "node.auto_restart" => data.auto_restart,
+            "false" => false,
+            "true" => true,
+            other => return Err(format!("unknown-upgrade-literal auto_restart: {other}")),
+        };
+        let options = UpgradeOptions {
+            auto_restart,
+            env_variables,
+            force: false,
+            start_service: true,
+            target_bin_path: root.join("src/antnode"),
+            target_version: semver::Version::parse("0.2.0").unwrap(),
+        };
+        let svc = NodeService::new(&mut data, Box::new(Rpc { listen: None }));
+        let upgrade = svc.build_upgrade_install_context(options).map_err(|e| format!("upgrade ctx: {e}"))?;
+        drop(svc);
+        reg.nodes[pos] = data.clone();
+        out.push(Built { index, install, install_user_mode, upgrade, data });
+    }
+    Ok(out)
 }
 
 pub fn argv(ctx: &ServiceInstallCtx) -> Vec<String> {
@@ -340,16 +426,16 @@ pub fn argv(ctx: &ServiceInstallCtx) -> Vec<String> {
 
 pub fn show_ctx(ctx: &ServiceInstallCtx, root: &Path) -> String {
     let r = root.to_string_lossy().to_string();
-    let s = format!(
+    let e = |x: &str| esc(&x.replace(&r, "$R"));
+    format!(
         "{} | autostart={} environment={} label={} program={} username={}",
-        argv(ctx).join(" "),
+        argv(ctx).iter().map(|a| e(a)).collect::<Vec<_>>().join(" "),
         ctx.autostart,
-        env_show(&ctx.environment),
+        match &ctx.environment { None => "-".to_string(), some => e(&env_show(some)) },
         ctx.label,
-        ctx.program.to_string_lossy(),
-        ctx.username.clone().unwrap_or_else(|| "-".into())
-    );
-    s.replace(&r, "$R")
+        e(&ctx.program.to_string_lossy()),
+        ctx.username.clone().map(|u| e(&u)).unwrap_or_else(|| "-".into())
+    )
 }
 
 // ---------- generation ----------
@@ -371,7 +457,7 @@ pub const OPTS: &[&str] = &[
     "options.node_ip",
     "node_port",
     "metrics_free_port",
-    "owner",
+    "options.owner",
     "options.max_archived_log_files",
     "options.max_log_files",
     "options.peers_args.bootstrap_cache_dir",
@@ -383,22 +469,60 @@ const ADDRS: &[&str] = &[
     "/ip4/127.0.0.1/tcp/8080/ws/p2p/12D3KooWS2tpXGGTmg2AHFiDh57yPQnat49YHnyqoggzXZWpqkCR",
     "/ip4/192.168.1.7/udp/65535/quic-v1",
 ];
-const URLS: &[&str] = &["http://localhost:8080/contacts", "https://sn-testnet.s3.eu-west-2.amazonaws.com/network-contacts", "http://10.1.1.1/bootstrap_cache.json"];
+const URLS: &[&str] = &[
+    "http://localhost:8080/contacts",
+    "https://sn-testnet.s3.eu-west-2.amazonaws.com/network-contacts",
+    "http://10.1.1.1/bootstrap_cache.json",
+    "HTTPS://EXAMPLE.ORG/ÜPPER/Ünïcode?a=b&c=d",
+    "http://host/path with space/ДАННЫЕ.json",
+];
 const REWARDS: &[&str] = &["0x03B770D9cD32077cC0bF330c13C114a87643B124", "0x1111111111111111111111111111111111111111", "0xd8dA6BF26964aF9D7eEd9e03E53415D37aA96045"];
+/// owner names: plain, ASCII capitals, non-ASCII capitals (Latin, Cyrillic, Greek, a capital whose
+/// lower-case form is two code points), already lower-case non-ASCII, spaces, `=`, very long
+const OWNERS: &[&str] = &[
+    "discord_user",
+    "bob",
+    "a.b_c9",
+    "Bob",
+    "MiXeD_Case99",
+    "Ünal_Çelik",
+    "ÀÉÎÕÜ",
+    "ünal çelik",
+    "ДМИТРИЙ иван",
+    "ΑΘΗΝΑ_αβγ",
+    "İstanbul",
+    "straße=ẞ",
+    "x",
+];
+const DIR_PARENTS: &[&str] = &["$R/data", "$R/dätä dir", "$R/ДАННЫЕ=x/Nodes", "$R/d"];
+const LOG_PARENTS: &[&str] = &["$R/log", "$R/Lög Files", "$R/l=o=g"];
+const ENVS: &[&str] = &["ANT_LOG=all", "ANT_LOG=all,RUST_LOG=libp2p=debug", "X=1", "ÄNV=Wert mit Leerzeichen,B=x=y", "PATH_EXTRA=/opt/Ünïcode dir/bin"];
 
-pub fn gen_value(key: &str, rng: &mut Rng) -> String {
-    let port = |rng: &mut Rng| -> String { (*rng.pick(&[1u16, 1024, 12000, 40000, 65535]) as u32 + rng.below(3) as u32).min(65535).to_string() };
+pub fn gen_value(key: &str, rng: &mut Rng, multi: bool) -> String {
+    let port = |rng: &mut Rng| -> String {
+        if multi {
+            (*rng.pick(&[1u16, 1024, 12000, 40000, 65000]) as u32 + rng.below(3) as u32).to_string()
+        } else {
+            (*rng.pick(&[1u16, 1024, 12000, 40000, 65535]) as u32 + rng.below(3) as u32).min(65535).to_string()
+        }
+    };
     match key {
-        "options.env_variables" => rng.pick(&["ANT_LOG=all", "ANT_LOG=all,RUST_LOG=libp2p=debug", "X=1"]).to_string(),
+        "options.env_variables" => rng.pick(ENVS).to_string(),
         "options.user" => "root".to_string(),
         "options.log_format" => rng.pick(&["json", "default"]).to_string(),
         "options.network_id" => rng.pick(&["0", "1", "7", "255"]).to_string(),
         "options.node_ip" => rng.pick(&["10.0.0.7", "0.0.0.0", "255.255.255.255", "192.168.1.20"]).to_string(),
         "node_port" => port(rng),
         "metrics_free_port" => port(rng),
-        "owner" => rng.pick(&["discord_user", "bob", "a.b_c9", "x"]).to_string(),
+        "options.owner" => {
+            if rng.chance(1, 12) {
+                format!("{}_Ω", "LongOwnerName".repeat(24))
+            } else {
+                rng.pick(OWNERS).to_string()
+            }
+        }
         "options.max_archived_log_files" | "options.max_log_files" => rng.pick(&["0", "1", "5", "1000000"]).to_string(),
-        "options.peers_args.bootstrap_cache_dir" => rng.pick(&["$R/cache", "$R/home/ant/.local/share/autonomi/bootstrap_cache"]).to_string(),
+        "options.peers_args.bootstrap_cache_dir" => rng.pick(&["$R/cache", "$R/home/ant/.local/share/autonomi/bootstrap_cache", "$R/Çache dir/x=y"]).to_string(),
         _ => "x".to_string(),
     }
 }
@@ -410,22 +534,53 @@ pub fn gen_list(key: &str, rng: &mut Rng) -> String {
     for _ in 0..n {
         let c = rng.pick(pool).to_string();
         let c = if key.ends_with("addrs") { Multiaddr::from_str(&c).unwrap().to_string() } else { c };
-        v.push(c);
+        v.push(esc(&c));
     }
     v.join(",")
 }
 
+/// the `@case` table of a record: non-ASCII characters of its owner that `to_lowercase` changes
+pub fn case_table(owner: &str) -> Option<String> {
+    let mut pairs: Vec<String> = vec![];
+    for c in owner.chars() {
+        if c.is_ascii() {
+            continue;
+        }
+        let l: String = c.to_lowercase().collect();
+        if l != c.to_string() {
+            let p = format!("{c}:{l}");
+            if !pairs.contains(&p) {
+                pairs.push(p);
+            }
+        }
+    }
+    if pairs.is_empty() { None } else { Some(format!("l:{}", pairs.join(","))) }
+}
+
+/// the derived locals of the i-th service of an add whose first service has number `number`
+fn service_keys(r: &mut Rec, i: u64, number: u64, dparent: &str, lparent: &str, rpc_ip: &str, rpc_port: u64) {
+    let n = number + i - 1;
+    let sfx = if i == 1 { String::new() } else { format!("#{i}") };
+    r.set_some(&format!("node_number{sfx}"), &n.to_string());
+    r.set_some(&format!("service_name{sfx}"), &format!("antnode{n}"));
+    r.set_some(&format!("service_data_dir_path{sfx}"), &format!("{dparent}/antnode{n}"));
+    r.set_some(&format!("service_log_dir_path{sfx}"), &format!("{lparent}/antnode{n}"));
+    r.set_some(&format!("service_antnode_path{sfx}"), &format!("{dparent}/antnode{n}/antnode"));
+    r.set_some(&format!("rpc_socket_addr{sfx}"), &format!("{rpc_ip}:{}", rpc_port + i - 1));
+}
+
 /// A record from a presence pattern (bit i of `bits` = i-th optional setting switched on) and value choices.
-pub fn gen_record(bits: u64, evm: u64, rng: &mut Rng) -> Rec {
+/// `multi` = (count, fault): an add of several services with an injected fault.
+pub fn gen_record_with(bits: u64, evm: u64, rng: &mut Rng, multi: Option<(u64, Option<(&str, u64)>)>) -> Rec {
     let mut r = Rec::default();
+    let count = multi.map(|m| m.0).unwrap_or(1);
     let number = if rng.chance(1, 3) { rng.range(2, 4) } else { 1 };
-    r.set("node_number", format!("s:{number}"));
-    r.set("service_name", format!("s:antnode{number}"));
-    r.set("service_data_dir_path", format!("s:$R/data/antnode{number}"));
-    r.set("service_log_dir_path", format!("s:$R/log/antnode{number}"));
-    r.set("service_antnode_path", format!("s:$R/data/antnode{number}/antnode"));
+    let dparent = if rng.chance(1, 2) { DIR_PARENTS[0] } else { *rng.pick(DIR_PARENTS) };
+    let lparent = if rng.chance(1, 2) { LOG_PARENTS[0] } else { *rng.pick(LOG_PARENTS) };
     let rpc_default = rng.chance(1, 2);
-    r.set("rpc_socket_addr", format!("s:{}:{}", if rpc_default { "127.0.0.1" } else { *rng.pick(&["127.0.0.1", "10.0.0.9", "0.0.0.0"]) }, rng.range(12000, 12100)));
+    let rpc_ip = if rpc_default { "127.0.0.1" } else { *rng.pick(&["127.0.0.1", "10.0.0.9", "0.0.0.0"]) };
+    let rpc_port = rng.range(12000, 12100);
+    service_keys(&mut r, 1, number, dparent, lparent, rpc_ip, rpc_port);
     r.set("@rpc_default_ip", if rpc_default { "T" } else { "F" });
     r.set("options.rewards_address", format!("s:{}", RewardsAddress::from_str(*rng.pick(REWARDS)).unwrap()));
     r.set("options.version", "s:0.1.0");
@@ -436,7 +591,8 @@ pub fn gen_record(bits: u64, evm: u64, rng: &mut Rng) -> Rec {
     }
     for k in OPTS {
         if bits >> i & 1 == 1 {
-            r.set(k, format!("s:{}", gen_value(k, rng)));
+            let v = gen_value(k, rng, count > 1);
+            r.set_some(k, &v);
         } else {
             r.set(k, "-");
         }
@@ -462,14 +618,12 @@ pub fn gen_record(bits: u64, evm: u64, rng: &mut Rng) -> Rec {
             r.set("options.evm_network.data_payments_address", format!("s:{}", norm(*rng.pick(&["0x8464135c8F25Da09e49BC8782676a84730C318bC", "0x7f90A89A5B15D0A3bE7F3F3F7F4B2c1E7b6eF1a2"]))));
         }
     }
-    // derived inputs of add_node
-    if r.get("owner") != Some("-") && rng.chance(1, 3) {
-        let o = r.some("owner").unwrap();
-        let mut c = o.chars();
-        let raw: String = c.next().map(|f| f.to_uppercase().collect::<String>() + c.as_str()).unwrap_or_default();
-        r.set("@owner_raw", format!("s:{raw}"));
+    if let Some(o) = r.some("options.owner") {
+        if let Some(t) = case_table(&o) {
+            r.set("@case", t);
+        }
     }
-    if r.get("metrics_free_port") != Some("-") && rng.chance(1, 3) {
+    if count == 1 && r.get("metrics_free_port") != Some("-") && rng.chance(1, 3) {
         r.set("@metrics_via_server", "T");
     }
     if rng.chance(1, 5) {
@@ -481,19 +635,41 @@ pub fn gen_record(bits: u64, evm: u64, rng: &mut Rng) -> Rec {
     }
     // circumstances of the upgrade
     if rng.chance(1, 4) {
-        r.set("@provided", format!("s:{}", rng.pick(&["ANT_LOG=v", "A=1,B=2"])));
+        r.set_some("@provided", *rng.pick(&["ANT_LOG=v", "A=1,B=2", "Ü=ö ä"]));
     }
     if rng.chance(1, 5) {
-        r.set("@prev", format!("s:{}", rng.pick(&["OLD=1", "ANT_LOG=all"])));
+        r.set_some("@prev", *rng.pick(&["OLD=1", "ANT_LOG=all"]));
     }
-    if rng.chance(1, 3) {
+    if count == 1 && rng.chance(1, 3) {
         let p = match r.some("node_port") {
             Some(p) if rng.chance(3, 4) => p,
             _ => rng.range(1025, 65535).to_string(),
         };
         r.set("@listen", format!("s:{p}"));
     }
+    if let Some((count, fault)) = multi {
+        r.set("options.peers_args.first", "F"); // a genesis node can only be added alone
+        r.set("@count", format!("s:{count}"));
+        if let Some((kind, k)) = fault {
+            r.set("@fail", format!("s:{kind}:{k}"));
+        }
+        let np: Option<u64> = r.some("node_port").and_then(|p| p.parse().ok());
+        let mp: Option<u64> = r.some("metrics_free_port").and_then(|p| p.parse().ok());
+        for i in 2..=count {
+            service_keys(&mut r, i, number, dparent, lparent, rpc_ip, rpc_port);
+            if let Some(p) = np {
+                r.set(&format!("node_port#{i}"), format!("s:{}", p + i - 1));
+            }
+            if let Some(p) = mp {
+                r.set(&format!("metrics_free_port#{i}"), format!("s:{}", p + i - 1));
+            }
+        }
+    }
     r
+}
+
+pub fn gen_record(bits: u64, evm: u64, rng: &mut Rng) -> Rec {
+    gen_record_with(bits, evm, rng, None)
 }
 
 pub const N_BITS: usize = 8 + 11 + 2; // BOOLS + OPTS + LISTS
